@@ -8,6 +8,6 @@ git -C /repo worktree add --detach -f "$WT" HEAD >/dev/null 2>&1 || exit 2
 git -C "$WT" apply "/verif/seeded/benign/$NAME.diff" || { git -C /repo worktree remove --force "$WT"; exit 2; }
 export VERIF_WORK="/tmp/wt/work_$NAME" VERIF_EVIDENCE="/tmp/wt/evid_$NAME"   # keep /verif/evidence for runs against /repo
 for P in "$@"; do
-  ( cd /verif && VERIF_REPO="$WT" ./vcheck "$P" --tier "${TIER:-quick}" > "/tmp/benign_${NAME}_$P.log" 2>&1; echo "$NAME $P exit=$? $(grep -c '^VIOLATION' /tmp/benign_${NAME}_$P.log) violations; $(grep -m1 -A1 '^VIOLATION\|^HARNESS' /tmp/benign_${NAME}_$P.log | tail -1 | cut -c1-200)" )
+  ( cd "${VERIF_HOME:-/verif}" && VERIF_REPO="$WT" ./vcheck "$P" --tier "${TIER:-quick}" > "/tmp/benign_${NAME}_$P.log" 2>&1; echo "$NAME $P exit=$? $(grep -c '^VIOLATION' /tmp/benign_${NAME}_$P.log) violations; $(grep -m1 -A1 '^VIOLATION\|^HARNESS' /tmp/benign_${NAME}_$P.log | tail -1 | cut -c1-200)" )
 done
 git -C /repo worktree remove --force "$WT"; git -C /repo worktree prune; rm -rf "$VERIF_WORK" "$VERIF_EVIDENCE"
